@@ -86,9 +86,16 @@ def run_shard_inproc(pid, spec):
     mod = load_prop(pid)
     acc = Acc()
     t0 = time.time()
-    mod.run_shard(spec, acc)
+    err = None
+    try:
+        mod.run_shard(spec, acc)
+    except Exception:
+        # what the monitors saw before the harness itself broke still counts: a
+        # violation stays a violation, otherwise the run is inconclusive
+        err = traceback.format_exc()[-3000:]
     r = acc.to_json()
     r["wall_s"] = time.time() - t0
+    r["error"] = err
     return r
 
 
@@ -227,6 +234,8 @@ def main(argv=None):
                 samples.append(s)
         violations.extend(r["violations"])
         notes.extend(r.get("notes", []))
+        if r.get("error"):
+            problems.append("a shard's harness raised: %s" % r["error"][-600:])
     n_distinct = len(distinct) + disjoint
 
     # ---- classify
